@@ -106,7 +106,11 @@ func BuildSchemaValidation(schema *openapi3.SchemaRef, validationString string, 
 			}
 		case "min":
 			if specType == "string" {
-				schema.Value.MinLength = *swagtool.ParseUInteger(ruleValue)
+				if minLength := swagtool.ParseUInteger(ruleValue); minLength != nil {
+					schema.Value.MinLength = *minLength
+				} else {
+					logger.Warn("Validation rule 'min' expects a non-negative integer for string fields, got '%s'", ruleValue)
+				}
 			} else if specType == "integer" || specType == "number" {
 				schema.Value.Min = swagtool.ParseNumber(ruleValue)
 				schema.Value.ExclusiveMin = false
@@ -124,9 +128,12 @@ func BuildSchemaValidation(schema *openapi3.SchemaRef, validationString string, 
 			}
 		case "len":
 			if specType == "string" {
-				length := swagtool.ParseUInteger(ruleValue)
-				schema.Value.MinLength = *length
-				schema.Value.MaxLength = length
+				if length := swagtool.ParseUInteger(ruleValue); length != nil {
+					schema.Value.MinLength = *length
+					schema.Value.MaxLength = length
+				} else {
+					logger.Warn("Validation rule 'len' expects a non-negative integer, got '%s'", ruleValue)
+				}
 			} else {
 				logger.Warn("Validation rule 'len' is only applicable to string fields, got %s", specType)
 			}
@@ -138,7 +145,11 @@ func BuildSchemaValidation(schema *openapi3.SchemaRef, validationString string, 
 			}
 		case "minItems":
 			if specType == "array" {
-				schema.Value.MinItems = *swagtool.ParseUInteger(ruleValue)
+				if minItems := swagtool.ParseUInteger(ruleValue); minItems != nil {
+					schema.Value.MinItems = *minItems
+				} else {
+					logger.Warn("Validation rule 'minItems' expects a non-negative integer, got '%s'", ruleValue)
+				}
 			} else {
 				logger.Warn("Validation rule 'minItems' is only applicable to array fields, got %s", specType)
 			}
@@ -150,7 +161,11 @@ func BuildSchemaValidation(schema *openapi3.SchemaRef, validationString string, 
 			}
 		case "uniqueItems":
 			if specType == "array" {
-				schema.Value.UniqueItems = *swagtool.ParseBool(ruleValue)
+				if uniqueItems := swagtool.ParseBool(ruleValue); uniqueItems != nil {
+					schema.Value.UniqueItems = *uniqueItems
+				} else {
+					logger.Warn("Validation rule 'uniqueItems' expects a boolean, got '%s'", ruleValue)
+				}
 			} else {
 				logger.Warn("Validation rule 'uniqueItems' is only applicable to array fields, got %s", specType)
 			}
